@@ -217,7 +217,8 @@ func ParseMessage(reader *bufio.Reader) (*Message, error) {
 				return nil, errors.New("not a valid sip request")
 			}
 			name := line[0:pos]
-			value := strings.TrimSpace(line[pos+1:])
+			// only SP and HTAB are blanks (RFC 3261 LWS); other white space belongs to the value
+			value := strings.Trim(line[pos+1:], " \t")
 			msg.AddHeader(name, value)
 		}
 	}
